@@ -55,7 +55,9 @@ Theorem C03_rebase_keeps_concurrent_deletions : forall frows fcontent h rv mr cu
   finish_delete_update frows rb' (m_frags cur) nd = FOk o' ->
   du_result frows fcontent cur rows upd gone o' (fun u g => Delete u g).
 Proof.
-  intros. eapply du_core; try eassumption. left. split; reflexivity.
+  intros frows fcontent h rv mr cur rows nd0 nd upd gone rb' o' H1 H2 H3 H4 H5 H6 H7.
+  exact (du_core frows fcontent h rv mr cur rows nd0 nd upd gone (Delete upd gone) rb' o' (fun u g => Delete u g)
+           H1 H2 H3 H4 H5 (or_introl (conj eq_refl eq_refl)) H6 H7).
 Qed.
 Print Assumptions C03_rebase_keeps_concurrent_deletions.
 
@@ -98,9 +100,16 @@ Definition nv_steps : list step :=
     {| s_rv := 1; s_int := IDelete [(0, 2); (1, 0)]; s_newdel := 11 |};
     {| s_rv := 1; s_int := IDelete [(0, 0); (0, 1)]; s_newdel := 12 |};
     {| s_rv := 2; s_int := IUpdateRows [(1, 1)] [mkf 0 [mkd 7 [0%Z; 1%Z]] None]; s_newdel := 13 |} ].
+Ltac eval_hist :=
+  match goal with
+  | |- context [fst (run_step ?a ?b ?c)] =>
+      let v := eval vm_compute in (fst (run_step a b c)) in change (fst (run_step a b c)) with v
+  end.
+Ltac rows_ok := unfold valid_intent, rows_live; cbn [s_rv s_int]; intros a Ha; cbn in Ha; intuition (subst; vm_compute; reflexivity).
+
 Example C03_nonvacuous :
   let h0 := [{| v_man := nv_m0; v_op := Overwrite [] [] None |}] in
-  wf_manifest nv_rows nv_m0 /\ valid_run nv_rows h0 nv_steps
+  wf_manifest nv_rows nv_m0 /\ valid_run nv_rows h0 (firstn 3 nv_steps)
   /\ length (snd (run nv_rows h0 nv_steps)) = 3%nat
   /\ version_of (fst (run nv_rows h0 nv_steps)) = 4
   /\ (exists m, latest (fst (run nv_rows h0 nv_steps)) = Some m
@@ -111,13 +120,9 @@ Proof.
     + intros f [E | [E | []]]; subst; split; cbn; intros; intuition (subst; vm_compute; try reflexivity; try lia).
     + intros x [E | [E | []]]; subst; discriminate.
     + cbn. intros f [E | [E | []]]; subst; vm_compute; discriminate.
-  - cbn [valid_run]. repeat split; try (vm_compute; reflexivity).
-    + intros a [E | []]; subst; vm_compute; reflexivity.
-    + intros a [E | [E | []]]; subst; vm_compute; reflexivity.
-    + intros a [E | [E | []]]; subst; vm_compute; reflexivity.
-    + intros a [E | []]; subst; vm_compute; reflexivity.
-    + intros f [E | []]; subst; reflexivity.
-    + intros f [E | []]; subst. reflexivity.
-    + intros f [E | []]; subst. split; cbn; intros; intuition (subst; vm_compute; try reflexivity; try lia).
+  - cbn [firstn nv_steps valid_run].
+    split; [rows_ok | split; [vm_compute; reflexivity|]]. eval_hist.
+    split; [rows_ok | split; [vm_compute; reflexivity|]]. eval_hist.
+    split; [rows_ok | split; [vm_compute; reflexivity|]]. exact I.
   - eexists. split; vm_compute; reflexivity.
 Qed.
